@@ -7,34 +7,91 @@ package xsync
 // the native side (replay) they read the solver's model from VxRT.
 
 import (
+	"encoding/json"
 	"fmt"
+	"os"
 	"sync"
 	"time"
 )
 
 type VxReplay struct {
-	Inputs   map[string][]uint64 // name[@t<id>] -> values in call order
-	HashStr  map[string]uint64   // "<str>|<seed>" -> hash
-	Hash2    map[string]uint64   // "<k>|<seed>" -> hash
-	Seeds    []uint64
-	Clock    int64
-	Sched    [][]int // [round][thread] visible-op budget
-	Strings  map[uint64]string
-	mu       sync.Mutex
-	pos      map[string]int
-	seedPos  int
-	Failures []string
-	Reached  []string
-	Observed []VxObs
+	ID      string              `json:"id"`
+	Harness string              `json:"harness"`
+	Args    []int64             `json:"args"`
+	Inputs  map[string][]uint64 `json:"inputs"`
+	HashStr map[string]uint64   `json:"hashstr"`
+	Hash2   map[string]uint64   `json:"hash2"`
+	HashN   map[string]uint64   `json:"hashn"`
+	Strings map[string]string   `json:"strings"`
+	Sched   [][]int             `json:"sched"`
+	Rounds  int                 `json:"rounds"`
+	VisAll  bool                `json:"visall"`
+
+	Clock          int64
+	mu             sync.Mutex
+	pos            map[string]int
+	Failures       []string
+	Reached        []string
+	Observed       []VxObs
 	AssumeViolated bool
-	cur      int // current thread (-1 outside VxPar)
-	sch      *vxSched
+	cur            int // current thread (-1 outside VxPar)
+	sch            *vxSched
 }
 
 type VxObs struct {
-	Name string
-	Thr  int
-	Val  string
+	Name string `json:"name"`
+	Thr  int    `json:"thr"`
+	Val  string `json:"val"`
+}
+
+type VxOut struct {
+	ID             string   `json:"id"`
+	Failures       []string `json:"failures"`
+	Reached        []string `json:"reached"`
+	Observed       []VxObs  `json:"observed"`
+	AssumeViolated bool     `json:"assume_violated"`
+	Panic          string   `json:"panic"`
+	Deadlock       bool     `json:"deadlock"`
+}
+
+// VxRunReplays runs every job in jobsFile through dispatch and writes the outcomes.
+func VxRunReplays(jobsFile, outFile string, dispatch map[string]func([]int64)) {
+	data, err := os.ReadFile(jobsFile)
+	if err != nil {
+		panic(err)
+	}
+	var jobs []*VxReplay
+	if err := json.Unmarshal(data, &jobs); err != nil {
+		panic(err)
+	}
+	var outs []VxOut
+	for _, j := range jobs {
+		j.cur = -1
+		VxRT = j
+		out := VxOut{ID: j.ID}
+		func() {
+			defer func() {
+				if e := recover(); e != nil {
+					out.Panic = fmt.Sprint(e)
+				}
+			}()
+			fn, ok := dispatch[j.Harness]
+			if !ok {
+				panic("no such harness: " + j.Harness)
+			}
+			fn(j.Args)
+		}()
+		out.Failures, out.Reached, out.Observed, out.AssumeViolated = j.Failures, j.Reached, j.Observed, j.AssumeViolated
+		if j.sch != nil {
+			out.Deadlock = j.sch.deadlocked
+		}
+		outs = append(outs, out)
+		VxRT = nil
+	}
+	b, _ := json.Marshal(outs)
+	if err := os.WriteFile(outFile, b, 0o644); err != nil {
+		panic(err)
+	}
 }
 
 var VxRT *VxReplay
@@ -74,7 +131,7 @@ func VxStrOf(id uint64) string {
 	if id == 0 {
 		return ""
 	}
-	if s, ok := VxRT.Strings[id]; ok {
+	if s, ok := VxRT.Strings[fmt.Sprint(id)]; ok {
 		return s
 	}
 	return fmt.Sprintf("s%d", id)
